@@ -113,6 +113,14 @@ def run_cell(cfg, cx):
             f = lambda x: geom.GeometricImage(x, p, D, True).unpool(patch).data
         tr = I.Traced(f, X)
         base = tr(X)
+        # the declared type of the pooled / unpooled image is how it transforms: (k, parity, D, flags) are those of the input
+        if entry in ("geom", "image") and not (blk == "maxpool" and entry in ("geom", "nonorm")):
+            for flags in ((True,) * D, tuple(i % 2 == 0 for i in range(D))):
+                im = geom.GeometricImage(jnp.zeros(shape + (D,) * k), p, D, flags)
+                om = {"maxpool": lambda: im.max_pool(patch), "avgpool": lambda: im.average_pool(patch), "unpool": lambda: im.unpool(patch)}[blk]()
+                cx.structural(f"{blk}: declared type of the result [flags={flags}]", (om.k, om.parity, om.D, tuple(om.is_torus)) == (k, p % 2, D, flags),
+                              f"(k, parity, D, is_torus) = {(om.k, om.parity, om.D, tuple(om.is_torus))}, input {(k, p % 2, D, flags)}",
+                              key=f"type:{blk}:{ckey}:flags={flags}")
         assum = []
         if blk == "maxpool":
             # the statement's precondition: the per-patch maximum is attained at a unique pixel -> pairwise distinct comparators per patch
